@@ -99,7 +99,19 @@ BDD_MUTS = {
  'base_reset_keeps_sets': (B, "        self.f_low = WeakSet()\n        self.f_high = WeakSet()", "        self.f_low = WeakSet()", ['BDDNode.__reset__']),
 }
 
-BY_PROPERTY = {'C13': [GRAPH_MUTS], 'C14': [KRIPKE_MUTS], 'C01': [CTL_MUTS], 'C05': [REWRITE_MUTS], 'C16': [BDD_MUTS]}
+CTLS_MUTS = {
+ 'fresh_label_unconditional': ('CTLS/model_checking.py', "    while f_atom in atoms:\n        f_atom = '[{}({})]'.format(f_str, i)\n        i += 1\n", "", ['_get_a_new_atomic_proposition_for']),
+ 'fresh_label_wrong_test': ('CTLS/model_checking.py', "    while f_atom in atoms:", "    while f_str in atoms and i < 1:", ['_get_a_new_atomic_proposition_for']),
+}
+
+LTL_MUTS = {
+ 'ltl_drop_lnot': ('LTL/model_checking.py', "        p_formula = LNot(formula.subformula(0))\n", "        p_formula = formula.subformula(0)\n", ['LTL.modelcheck']),
+ 'ltl_no_complement': ('LTL/model_checking.py', "        return set(kripke.states())-_checkE_path_formula(kripke, p_formula)", "        return _checkE_path_formula(kripke, p_formula)", ['LTL.modelcheck']),
+ 'ltl_no_rewrite': ('LTL/model_checking.py', "        p_formula = p_formula.get_equivalent_restricted_formula()\n", "", ['LTL.modelcheck']),
+ 'ltl_guard': ('LTL/model_checking.py', "    if not (isinstance(formula, CTLS.A)):", "    if not (isinstance(formula, CTLS.A) or isinstance(formula, CTLS.E)):", ['LTL.modelcheck']),
+}
+
+BY_PROPERTY = {'C13': [GRAPH_MUTS], 'C14': [KRIPKE_MUTS], 'C01': [CTL_MUTS], 'C05': [REWRITE_MUTS], 'C16': [BDD_MUTS], 'C03': [CTLS_MUTS], 'C02': [LTL_MUTS]}
 # equivalent mutants (the change does not alter behaviour) are excluded from the requirement
 EQUIVALENT = {'sub_S0_all'}
 
